@@ -21,7 +21,7 @@ ASSUMPTIONS = [
     "real-valued parameters are covered on the finite catalogue + VERIF_SEED-indexed generic reals (cond<=1e3) only",
     "sizes bounded: D<=4, R<=3",
 ]
-BOUNDS = {"quick": dict(D=[2, 3, 4], R=[1, 2, 3]), "thorough": dict(D=[2, 3, 4, 5], R=[1, 2, 3, 4])}
+BOUNDS = {"quick": dict(D=[2, 3, 4], R=[1, 2, 4]), "thorough": dict(D=[2, 3, 4, 5], R=[1, 2, 3, 4])}
 BUDGET = {"quick": 600, "thorough": 3600}
 
 
